@@ -52,6 +52,10 @@ fn start2(small: usize, cache: bool) -> Server {
                 std::fs::write(&p, body_of(actual)).unwrap();
                 Response::new(503).with_body(ResponseBody::File(p, declared))
             }
+            Some("rb") => { // upload with limit M = seg[2], applied through the helper Request::recv_body
+                let m: u64 = seg[2].parse().unwrap();
+                match req.recv_body(m) { Ok(_) => Response::text(200, format!("len={}", blen.unwrap_or(0))), Err(resp) => resp }
+            }
             Some("code") => Response::text(seg[2].parse().unwrap(), "x"),
             _ => Response::text(200, "ok"),
         }
@@ -103,6 +107,23 @@ fn upload2(s: &Server, small: usize, m: u64, l: usize, declared: bool, split: bo
         if final_status != vec![413] { return Some(format!("{desc} expected=413 actual={st:?}")); }
         if log.len() != 1 { return Some(format!("{desc} expected=1-handler-run actual={}", log.len())); }
     }
+    None
+}
+/// C09 through the handler-side helper: a handler that applies its limit with `req.recv_body(M)` gets the body iff L <= M
+/// (whether it was read to memory already or has to be fetched), and a 413 otherwise
+fn upload_rb(s: &Server, small: usize, m: u64, l: usize, declared: bool) -> Option<String> {
+    let desc = format!("recvbody S={small} M={m} L={l} declared={declared}");
+    let body = body_of(l);
+    let head = if declared { format!("POST /rb/{m} HTTP/1.1\r\ncontent-length: {l}\r\n\r\n") } else { format!("POST /rb/{m} HTTP/1.1\r\n\r\n") };
+    s.log.lock().unwrap().clear();
+    let mut msg = head.clone().into_bytes(); msg.extend_from_slice(&body);
+    let out = exchange(s, &msg, Some(head.len()));
+    let st: Vec<u16> = statuses(&out).into_iter().filter(|c| *c != 100).collect();
+    let log = s.log.lock().unwrap().clone();
+    if (l as u64) <= m {
+        if st != vec![200] { return Some(format!("{desc} expected=200 (L <= M) actual={st:?}")); }
+        match log.last().cloned() { Some((_, false, Some(n), sum)) if n == l as u64 && sum == checksum(&body) => {} other => return Some(format!("{desc} expected=handler-sees-intact-body-of-{l} actual={other:?}")) }
+    } else if st != vec![413] { return Some(format!("{desc} expected=413 (L > M) actual={st:?}")); }
     None
 }
 /// C08: response body file shorter than declared: the client sees a prefix of the correct response, one status line
@@ -162,6 +183,7 @@ fn main() {
         let n = nums(&w);
         let r = if w.starts_with("upload") { let nc = w.contains("nocache=1"); let s = start2(n[0] as usize, !nc); upload2(&s, n[0] as usize, n[1], n[2] as usize, w.contains("declared=true"), w.contains("split_head_body=true"), nc) }
             else if w.starts_with("pipebody") { let s = start(n[0] as usize); let lens: Vec<usize> = n[1..].iter().map(|x| *x as usize).collect(); pipebody(&s, n[0] as usize, &lens) }
+            else if w.starts_with("recvbody") { let s = start(n[0] as usize); upload_rb(&s, n[0] as usize, n[1], n[2] as usize, w.contains("declared=true")) }
             else if w.starts_with("bodyfile") { let s = start(100); short_file2(&s, n[0] as usize, n[1] as usize, w.contains("status=503")) }
             else { let s = start(100); let codes: Vec<u16> = n.iter().map(|x| *x as u16).collect(); pipeline(&s, &codes) };
         match r { Some(m) => { println!("WITNESS {m}"); std::process::exit(1) } None => { println!("OK witness no longer fails"); std::process::exit(0) } }
@@ -185,6 +207,9 @@ fn main() {
             for (d, a) in [(2000usize, 2000usize), (2000, 0), (2000, 1000), (100, 10)] { n += 1; if let Some(w) = short_file2(&s, d, a, true) { if found.len() < 6 { found.push(w) } } }
             for codes in [vec![200u16], vec![200, 200, 200], vec![200, 404, 200], vec![500, 200], vec![200, 204, 503, 200], vec![299, 399, 400]] { n += 1; if let Some(w) = pipeline(&s, &codes) { if found.len() < 6 { found.push(w) } } }
         }
+        for m in [0u64, 1, small as u64, small as u64 + 1, 300] { for l in [0usize, 1, m.saturating_sub(1) as usize, m as usize, m as usize + 1, small, small + 1] { for declared in [true, false] {
+            n += 1; if let Some(w) = upload_rb(&s, small, m, l, declared) { if found.len() < 6 { found.push(w) } }
+        }}}
         if small >= 1 {
             for lens in [vec![3usize, 2], vec![1, 1, 1], vec![0, 5, 0, 7], vec![small, 1, small], vec![small + 1, 2, small + 50, 3], vec![2, small + 1, 2], vec![3000, 1, 9000, 2]] { n += 1; if let Some(w) = pipebody(&s, small, &lens) { if found.len() < 6 { found.push(w) } } }
         }
